@@ -69,6 +69,12 @@ def mul_case(ec, p, a, b, P, k, path, z, order, side):
 def k_range(o):
     ks = list(range(-3, 2 * o + 4))
     ks += [4 * o + 1, -o, -o - 1, 8 * o - 1, (1 << 20) + 1]
+    # far outside [0, 2*ord): both signs, around multiples of the order
+    for m in (2, 3, 5, 6, 8, 12, 13, 16, 33, 64, 1000):
+        for dlt in (-1, 0, 1):
+            ks += [-(m * o + dlt)]
+            if m > 2:
+                ks += [m * o + dlt]
     return ks
 
 
@@ -221,6 +227,21 @@ def real_scalars(n):
          int("ff" * 20, 16), (1 << (n.bit_length() - 1)),
          (1 << (n.bit_length() - 1)) - 1, (1 << n.bit_length()) - 1,
          int("0f" * 70, 16), int("e1" * 33, 16)]
+    return s + extra_scalars(n)
+
+
+def extra_scalars(n):
+    """appended (indices of the list above stay stable): far-negative and
+    far-positive multiples of the order, and dyadic fractions floor(2^m / q):
+    3k, 5k, 7k sit within 1..q-1 of a power of two (binary-length and
+    float-rounding boundaries of the digit recodings)"""
+    s = [-6 * n - 5, -12 * n, -13 * n + 1, -33 * n - 2, 6 * n + 5, 12 * n,
+         33 * n + 2, -(n << 70) + 3]
+    nb = n.bit_length()
+    for m in (48, 50, 53, 54, 56, 64, 65, 100, nb - 2, nb - 1):
+        for q in (3, 5, 7):
+            s += [(1 << m) // q, (1 << m) // q + 1]
+    s += [-((1 << 64) // 3), -((1 << (nb - 1)) // 3)]
     return s
 
 
@@ -249,6 +270,9 @@ def real_case(ec, name, kind, i, j):
         elif kind == "legacy":
             exp = rc.ladder_mul(5 * k % n, G, p, a)
             res = ec.Point(c.curve, Q5[0], Q5[1], n) * k
+        elif kind == "legacy-noorder":
+            exp = rc.ladder_mul(5 * k % n, G, p, a)
+            res = ec.Point(c.curve, Q5[0], Q5[1]) * k
         elif kind == "mul_add":
             k2 = sc[j]
             exp = rc.ladder_mul((k + 5 * k2) % n, G, p, a)
@@ -350,6 +374,7 @@ def main(ctx):
     names = catalog.REAL_NAMES
     from ecdsa import curves as cv
     ns = len(real_scalars(cv.NIST192p.order))
+    ns0 = ns - len(extra_scalars(cv.NIST192p.order))
     rj = []
     step = ctx.pick(3, 1)
     for name in names:
@@ -361,12 +386,20 @@ def main(ctx):
             else:
                 idx = range(0, ns, step)
             for i in idx:
-                if kind in ("Q*k-noorder",) and i >= ns - 8:
+                if i >= ns0:
+                    continue
+                if kind in ("Q*k-noorder",) and i >= ns0 - 8:
                     continue     # very long scalars without reduction: slow
                 rj.append((name, kind, i, 0))
+        sc_all = real_scalars(int(getattr(cv, name).order))
+        for kind in ("G*k", "Q*k", "Q*k-noorder", "legacy", "legacy-noorder"):
+            for i in range(ns0, ns):
+                if "noorder" in kind and abs(sc_all[i]).bit_length() > 640:
+                    continue
+                rj.append((name, kind, i, 0))
         st2 = ctx.pick(7, 3)
-        for i in range(0, ns, st2):
-            for j in range(1, ns, st2):
+        for i in range(0, ns0, st2):
+            for j in range(1, ns0, st2):
                 rj.append((name, "mul_add", i, j))
                 if not ctx.quick:
                     rj.append((name, "mul_add-gen", i, j))
@@ -375,7 +408,8 @@ def main(ctx):
     rep = common.run_shards(ctx, jobs)
     rep.rule = (
         "full product per curve: every point P x k in [-3, 2*ord(P)+3] + "
-        "{4ord+1, -ord, -ord-1, 8ord-1, 2^20+1} x 6 construction paths x "
+        "{4ord+1, -ord, -ord-1, 8ord-1, 2^20+1, +-(m*ord+{-1,0,1}) for m up "
+        "to 1000} x 7 construction paths x "
         "declared order in {ord(P), #E} x Z-scalings x {k*P, P*k}; mul_add: "
         "every Q (incl. identity, P, -P) x (ka, kb) in ([-2, ord(P)+2] + "
         "{40,-17})^2 x generator flags x Q class x scalings. Non-trivial: "
